@@ -150,3 +150,9 @@ func Apply(doc, patch []byte, o Opts, indent string) (out []byte, err error, dec
 	}
 	return out, err, nil
 }
+
+// MergePatch, MergeMergePatches, CreateMergePatch, Equal: the merge-patch entry points.
+func MergePatch(doc, patch []byte) ([]byte, error)        { return jsonpatch.MergePatch(doc, patch) }
+func MergeMergePatches(p1, p2 []byte) ([]byte, error)     { return jsonpatch.MergeMergePatches(p1, p2) }
+func CreateMergePatch(a, b []byte) ([]byte, error)        { return jsonpatch.CreateMergePatch(a, b) }
+func Equal(a, b []byte) bool                              { return jsonpatch.Equal(a, b) }
